@@ -244,6 +244,31 @@ def parent_for(unit, element, rules):
     return p
 
 
+def rule_child_names(children_spec):
+    """names occurring in a children section (nested lists [name, min, max] / [[...], ..., min, max])"""
+    out = []
+
+    def go(x):
+        if isinstance(x, list):
+            if x and isinstance(x[0], str):
+                out.append(x[0])
+            else:
+                for y in x:
+                    go(y)
+    go(children_spec)
+    return out
+
+
+def lookalike_foreign(unit, rules, i):
+    """a name the rule does NOT allow that resembles one it allows (namespace-qualified, padded, re-cased, plural)"""
+    names = rule_child_names(rules[unit][1]) if unit in rules else []
+    if not names:
+        return HOSTILE_FOREIGN_NAMES[i % len(HOSTILE_FOREIGN_NAMES)]
+    a = names[i % len(names)]
+    cand = ["{u}" + a, "x}" + a, "x:" + a, a + " ", " " + a, a.capitalize(), a + "s", a.upper(), a[:-1]][i % 9]
+    return cand if cand not in names and cand else HOSTILE_FOREIGN_NAMES[i % len(HOSTILE_FOREIGN_NAMES)]
+
+
 HOSTILE_FOREIGN_NAMES = ["%s", "{0}", "100%d", "%(name)s", "zz:foreign", " ", "zzForeign\u00e9", "{a.b}", "\\"]      # none is a name of any rule
 
 
@@ -269,7 +294,7 @@ def realise(unit, element, word, rules, same_id=None, prefix=None, unregister=Fa
         p.content = [" ", "\n    ", "\t", "\u00a0 "][len(word) % 4]
     for i, a in enumerate(word):
         if a == FOREIGN:
-            nm = HOSTILE_FOREIGN_NAMES[i % len(HOSTILE_FOREIGN_NAMES)] if same_id else FOREIGN_NAME
+            nm = (lookalike_foreign(unit, rules, i + len(word)) if (i + len(word)) % 2 else HOSTILE_FOREIGN_NAMES[i % len(HOSTILE_FOREIGN_NAMES)]) if same_id else FOREIGN_NAME
         elif a == ANY:
             nm = ["title", "zzAnything", "dataset"][i % 3]
         else:
